@@ -215,6 +215,28 @@ def _(it, ci, a, d):
     return r
 
 
+@model('fs::metadata', 'std::fs::metadata', 'Path::metadata')
+def _(it, ci, a, d):
+    fs = _fs(it)
+    p = _pstr(a[0])
+    if not it.decide(fs.exists(p), 'fs_exists:' + p):
+        return err(Opaque('IoError', {'path': p, 'kind': 'NotFound'}))
+    alts = fs.files[p]['alts']
+    k = it.choose([c for c, _ in alts], 'fs_content:' + p) if len(alts) > 1 else 0
+    content = alts[k][1]
+    return ok(Opaque('Metadata', {'len': len(content.encode('utf-8')) if content is not None else 3, 'path': p}))
+
+
+@model('Metadata::len')
+def _(it, ci, a, d):
+    return deref(a[0]).data['len']
+
+
+@model('Metadata::is_file')
+def _(it, ci, a, d):
+    return True
+
+
 @model('Path::parent')
 def _(it, ci, a, d):
     # std: the path without its final component; None for "" and for a root
